@@ -47,7 +47,7 @@ fn value_failure(f: Fmt, nd: &ND, variant: u64) -> Option<String> {
         return Some(w);
     }
     // the same value written with the derived copulas
-    let mut sugar = Sugar { derived_copulas: true, retrospective: true, interval_pad: 0, placeholder_suffix: String::new(), coin: if variant % 2 == 0 { None } else { Some(variant | 1) } };
+    let mut sugar = Sugar { derived_copulas: true, retrospective: true, interval_pad: 0, placeholder_suffix: String::new(), coin: if variant % 2 == 0 { None } else { Some(variant | 1) }, pinned: false };
     let toks = tokens(f, nd, &mut sugar);
     let text = toks.join(" ");
     string_failure(f, &text, true)
